@@ -141,11 +141,16 @@ def lpc_e(e, names):
             return "::%s(%s)" % (e[1], args)
         if e[3] == "fptr":
             return "evaluate((: %s :)%s)" % (e[1], (", " + args) if args else "")
+        if e[3] == "fptr1":      # partial application: the first argument is bound in the function pointer
+            rest = ", ".join(lpc_e(x, names) for x in e[2][1:])
+            return "evaluate((: %s, %s :)%s)" % (e[1], lpc_e(e[2][0], names), (", " + rest) if rest else "")
         return "%s(%s)" % (e[1], args)
     if k == "efun":
         return "%s(%s)" % (e[1], ", ".join(lpc_e(x, names) for x in e[2]))
     if k == "macro":
         return "%s(%s)" % (e[1], ", ".join(lpc_e(x, names) for x in e[2])) if e[2] is not None else e[1]
+    if k == "lam2":              # anonymous functional (: $1 op $2 :) applied to two arguments
+        return "evaluate((: $1 %s $2 :), %s, %s)" % (BINOPS[e[1]], lpc_e(e[2], names), lpc_e(e[3], names))
     if k == "paren":
         return lpc_e(e[1], names)
     raise ValueError(e)
@@ -258,6 +263,8 @@ def sx_e(e):
         return "(efun %s%s)" % (e[1], "".join(" " + sx_e(x) for x in e[2]))
     if k == "macro":
         return sx_e(e[3])
+    if k == "lam2":
+        return "(bin %s %s %s)" % (e[1], sx_e(e[2]), sx_e(e[3]))
     if k == "paren":
         return sx_e(e[1])
     raise ValueError(e)
@@ -456,7 +463,7 @@ def typed_local(e):
 class C03(Prop):
     id = "C03"
     title = "Compiled bytecode computes exactly what LPC semantics define"
-    lean_modules = ["NV.C03.Props", "NV.C03.Props2", "NV.C03.Witness"]
+    lean_modules = ["NV.C03.Props", "NV.C03.Props2", "NV.C03.Props3", "NV.C03.Props4", "NV.C03.Props5", "NV.C03.Witness"]
     theorems = []          # filled below
     witness_theorems = []
     consts = [("oldRangeBehavior", "NV_OLD_RANGE"), ("switchCaseSize", "SWITCH_CASE_SIZE")]
@@ -873,7 +880,7 @@ class C03(Prop):
             ]
             return make_case(cid, fns, meta={"origin": "generated", "family": "loop"})
         if kind == "grow":
-            n = rng.choice([1, 7, 8, 9, 15, 16, 17, 63, 64, 65, 100, 130, 260])
+            n = rng.choice([1, 7, 8, 9, 15, 16, 17, 31, 32, 33, 63, 64, 65, 100, 127, 128, 129, 260, 513, 1030])
             what = rng.choice(["arr", "map", "str", "mapstr"])
             if what == "arr":
                 build = ("for", ("expr", ("asg", L(LI), I(0))), ("bin", "lt", L(LI), I(n)), ("expr", ("inc", "postinc", L(LI))),
@@ -915,8 +922,18 @@ class C03(Prop):
                     ("for", ("expr", ("asg", L(LI), I(0))), ("bin", "lt", L(LI), ("efun", "strlen", [L(A)])), ("expr", ("inc", "postinc", L(LI))),
                      col(("idx", L(A), L(LI)))), ("ret", L(C))]]
             return make_case(cid, fns, same=[[0, 1, 2] if ascii_only else [0, 1]], meta={"origin": "generated", "family": "loop"})
-        n = rng.choice([0, 1, 5, 9, 40])
+        n = rng.choice([0, 1, 5, 7, 8, 9, 15, 16, 17, 40, 64, 65, 130])
         m = Map([(I(q * 3), I(q + 1)) for q in range(n)])
+        if rng.chance(1, 3):
+            n = min(n, 17)    # keep the program text small: a pre_text above ~6 KB trips refill_buffer in lex.c (see notes)
+            m = Map([(S(("k%d" % q).encode()), I(q + 1)) for q in range(n)])
+            fns = [[("expr", ("asg", L(A), m)), ("foreach2", L(B), L(C), L(A), ("expr", ("aop", "add", L(LN), ("bin", "add", ("efun", "strlen", [L(B)]), L(C))))), ("ret", L(LN))],
+                   [("expr", ("asg", G(0), m)), ("foreach2", G(1), G(2), G(0), ("expr", ("aop", "add", L(LN), ("bin", "add", ("efun", "strlen", [G(1)]), G(2))))), ("ret", L(LN))],
+                   [("expr", ("asg", L(A), m)),
+                    ("for", ("expr", ("asg", L(LI), I(0))), ("bin", "lt", L(LI), I(n)), ("expr", ("inc", "postinc", L(LI))),
+                     ("expr", ("aop", "add", L(LN), ("bin", "add", ("efun", "strlen", [("bin", "add", S(b"k"), L(LI))]), ("idx", L(A), ("bin", "add", S(b"k"), L(LI))))))),
+                    ("ret", L(LN))]]
+            return make_case(cid, fns, meta={"origin": "generated", "family": "loop"})
         fns = [[("expr", ("asg", L(A), m)), ("foreach2", L(B), L(C), L(A), ("expr", ("aop", "add", L(LN), ("bin", "add", L(B), L(C))))), ("ret", L(LN))],
                [("expr", ("asg", L(A), m)),
                 ("for", ("expr", ("asg", L(LI), I(0))), ("bin", "lt", L(LI), I(n)), ("expr", ("inc", "postinc", L(LI))),
@@ -1017,19 +1034,75 @@ class C03(Prop):
         cmpv = rng.choice([0, 5, 2 ** 31, 2 ** 32])
         defs = ["#define SQR(x) ((x) * (x))", "#define ADD3(p, q, r) ((p) + (q) + (r))", "#define KK %s" % lpc_e(I(k), None),
                 "#if KK > %s" % lpc_e(I(cmpv), None), "#define SEL 1", "#else", "#define SEL 2", "#endif",
-                "#define TWICE(x) ADD3(x, x, 0)"]
+                "#define TWICE(x) ADD3(x, x, 0)",
+                "#define MAXV(p, q) ((p) < (q) ? (p) : (q))", "#undef MAXV", "#define MAXV(p, q) ((p) > (q) ? (p) : (q))",
+                "#ifdef MAXV", "#define HASMAX 1", "#else", "#define HASMAX 0", "#endif",
+                "#ifndef NO_SUCH_MACRO", "#define PAIR(p) ({ (p), SQR(p) })", "#endif",
+                "#if defined(SQR) && !defined(NO_SUCH_MACRO) && (KK == KK)", "#define COND3 3", "#else", "#define COND3 4", "#endif"]
+        mx = lambda p, q: ("cond", ("bin", "gt", p, q), p, q)
+        extra_m = [("macro", "MAXV", [a, b], mx(a, b)), ("macro", "HASMAX", None, I(1)), ("macro", "PAIR", [b], Arr([b, sq(b)])),
+                   ("macro", "COND3", None, I(3))]
+        extra_x = [mx(a, b), I(1), Arr([b, sq(b)]), I(3)]
         add3 = lambda p, q, r: ("bin", "add", ("bin", "add", p, q), r)
         sel = ("cond", ("efun", "#if", [("bin", "gt", I(k), I(cmpv))]), I(1), I(2))
         fns = [[("ret", Arr([("macro", "SQR", [a], sq(a)), ("macro", "ADD3", [a, b, I(1)], add3(a, b, I(1))), ("macro", "KK", None, I(k)),
-                             ("macro", "SEL", None, sel), ("macro", "TWICE", [b], add3(b, b, I(0)))]))],
-               [("ret", Arr([sq(a), add3(a, b, I(1)), I(k), I(1 if k > cmpv else 2), add3(b, b, I(0))]))],
+                             ("macro", "SEL", None, sel), ("macro", "TWICE", [b], add3(b, b, I(0)))] + extra_m))],
+               [("ret", Arr([sq(a), add3(a, b, I(1)), I(k), I(1 if k > cmpv else 2), add3(b, b, I(0))] + extra_x))],
                [("expr", ("asg", L(A), a)), ("expr", ("asg", L(B), b)),
                 ("ret", Arr([("macro", "SQR", [L(A)], sq(L(A))), ("macro", "ADD3", [L(A), L(B), I(1)], add3(L(A), L(B), I(1))), I(k),
-                             I(1 if k > cmpv else 2), ("macro", "TWICE", [L(B)], add3(L(B), L(B), I(0)))]))]]
+                             I(1 if k > cmpv else 2), ("macro", "TWICE", [L(B)], add3(L(B), L(B), I(0)))] +
+                           [("macro", "MAXV", [L(A), L(B)], mx(L(A), L(B))), I(1), ("macro", "PAIR", [L(B)], Arr([L(B), sq(L(B))])), I(3)]))]]
         return make_case(cid, fns, defines=defs, meta={"origin": "generated", "family": "macro"})
 
+    def fam_calls(self, rng, cid):
+        """the same computation through a local function, an inherited one (::), function pointers (plain, with a
+        bound first argument, anonymous functional) and directly"""
+        kind = rng.weighted([("bin", 5), ("nested", 3), ("idx", 2), ("sum", 2)])
+        if kind == "bin":
+            op = rng.choice(["add", "sub", "mul"])
+            a, b = pick_scalar(rng), pick_scalar(rng)
+            if rng.chance(1, 5) and op != "mul":
+                a, b = small_arr(rng), small_arr(rng)
+            pre = [("expr", ("asg", L(A), a)), ("expr", ("asg", L(B), b))]
+            fns = [pre + [("ret", ("bin", op, L(A), L(B)))],
+                   pre + [("ret", ("call", "f_" + op, [L(A), L(B)], "local"))],
+                   pre + [("ret", ("call", "h_" + op, [L(A), L(B)], "inherit"))],
+                   pre + [("ret", ("call", "f_" + op, [L(A), L(B)], "fptr"))],
+                   pre + [("ret", ("call", "f_" + op, [L(A), L(B)], "fptr1"))],
+                   pre + [("ret", ("call", "h_" + op, [L(A), L(B)], "fptr"))],
+                   pre + [("ret", ("lam2", op, L(A), L(B)))],
+                   [("ret", ("call", "f_" + op, [a, b], "fptr1"))],
+                   [("expr", ("asg", G(0), a)), ("expr", ("asg", G(1), b)), ("ret", ("call", "h_" + op, [G(0), G(1)], "inherit"))]]
+        elif kind == "nested":
+            a, b, c = I(pick_int(rng)), I(pick_int(rng)), (I(pick_int(rng)) if rng.chance(2, 3) else Fl(pick_float(rng)))
+            pre = [("expr", ("asg", L(A), a)), ("expr", ("asg", L(B), b)), ("expr", ("asg", L(C), c))]
+            fns = [pre + [("ret", ("bin", "sub", ("bin", "add", ("bin", "mul", L(A), L(B)), L(C)), L(A)))],
+                   pre + [("ret", ("call", "f_sub", [("call", "h_add", [("call", "f_mul", [L(A), L(B)], "local"), L(C)], "inherit"), L(A)], "local"))],
+                   pre + [("ret", ("call", "h_sub", [("call", "f_add", [("call", "h_mul", [L(A), L(B)], "inherit"), L(C)], "fptr"), L(A)], "inherit"))],
+                   pre + [("ret", ("lam2", "sub", ("call", "f_add", [("lam2", "mul", L(A), L(B)), L(C)], "fptr1"), ("call", "f_id", [L(A)], "fptr")))],
+                   pre + [("ret", ("call", "h_id", [("call", "f_id", [("bin", "sub", ("bin", "add", ("bin", "mul", L(A), L(B)), L(C)), L(A))], "fptr")], "inherit"))]]
+        elif kind == "idx":
+            c, n, k = self.pick_container(rng)
+            i = I(self.idx_value(rng, n)) if k != "map" else rng.choice([I(0), S(b"k"), Fl(1.5), S(b"none")])
+            pre = [("expr", ("asg", L(A), c)), ("expr", ("asg", L(B), i))]
+            fns = [pre + [("ret", ("idx", L(A), L(B)))],
+                   pre + [("ret", ("call", "f_idx", [L(A), L(B)], "local"))],
+                   pre + [("ret", ("call", "h_idx", [L(A), L(B)], "inherit"))],
+                   pre + [("ret", ("call", "f_idx", [L(A), L(B)], "fptr"))],
+                   pre + [("ret", ("call", "h_idx", [L(A), L(B)], "fptr1"))]]
+        else:
+            n = rng.choice([0, 1, 3, 17, 70])
+            arr = Arr([I(pick_int(rng) % 997) for _ in range(n)])
+            pre = [("expr", ("asg", L(A), arr))]
+            fns = [pre + [("ret", ("call", "f_sum", [L(A)], "local"))],
+                   pre + [("ret", ("call", "h_sum", [L(A)], "inherit"))],
+                   pre + [("ret", ("call", "h_sum", [L(A)], "fptr"))],
+                   pre + [("ret", ("call", "f_sum", [("call", "h_id", [L(A)], "inherit")], "fptr"))],
+                   pre + [("expr", ("asg", L(C), I(0))), ("foreach", L(B), L(A), ("expr", ("aop", "add", L(C), L(B)))), ("ret", L(C))]]
+        return make_case(cid, fns, meta={"origin": "generated", "family": "calls"})
+
     FAMS = [("fam_binop", 9), ("fam_unop", 2), ("fam_incdec", 3), ("fam_index", 5), ("fam_range", 5), ("fam_lvalue", 6),
-            ("fam_switch", 6), ("fam_loop", 6), ("fam_assignop", 5), ("fam_literal", 2), ("fam_rewrite", 4), ("fam_macro", 2)]
+            ("fam_switch", 6), ("fam_loop", 6), ("fam_assignop", 5), ("fam_literal", 2), ("fam_rewrite", 4), ("fam_macro", 3), ("fam_calls", 5)]
 
     def generate(self, rng, n, tier):
         out = []
@@ -1103,6 +1176,9 @@ class C03(Prop):
                                      ("for", ("expr", ("asg", L(LI), I(0))), ("bin", "lt", L(LI), ("efun", "strlen", [L(A)])), ("expr", ("inc", "postinc", L(LI))), col(("idx", L(A), L(LI)))), ("ret", L(C))]])
         mk("array-sub-2p32", [[("ret", ("bin", "sub", Arr([I(0)]), Arr([I(two32)])))],
                               [("expr", ("asg", L(A), Arr([Fl(0.5)]))), ("expr", ("asg", L(B), Arr([I(1), I(two32)]))), ("ret", ("bin", "sub", L(A), L(B)))]], same=[])
+        mm1, mm2 = Map([(I(1), I(2)), (I(7), I(8))]), Map([(I(2), I(3)), (I(4), I(5))])
+        mk("map-muleq", [[("expr", ("asg", L(A), mm1)), ("expr", ("asg", L(B), mm2)), ("expr", ("aop", "mul", L(A), L(B))), ("ret", L(A))],
+                         [("expr", ("asg", L(A), mm1)), ("expr", ("asg", L(B), mm2)), ("ret", ("bin", "mul", L(A), L(B)))]])
         mk("diveq-int-real-big", [[("expr", ("asg", L(A), I(2 ** 40))), ("expr", ("aop", "div", L(A), Fl(1.0))), ("ret", L(A))]])
         return Bc
 
@@ -1113,7 +1189,12 @@ PROP.theorems = ["NV.C03." + t for t in (
     "incdec_agrees", "index_agrees", "rindex_agrees", "lvget_agrees", "fold_sound", "fold_sound_spec", "fold_un_sound",
     "rewrite_eq_zero_sound", "rewrite_add_zero_sound", "rewrite_not_cond_sound", "rewrite_ne_zero_sound", "literal_roundtrip",
     "while_dec_agrees", "loop_cond_num_agrees", "loop_cond_local_agrees", "switch_direct_agrees",
+    "lvset_agrees_partial", "lvset_agrees_repaired", "range_lvalue_agrees", "storeRange_agrees", "cut_eq_slice",
+    "sliceArray_eq_slice", "range_agrees_repaired", "range_quirks_irrelevant", "range_agrees_partial",
+    "extract_agrees_repaired", "extract_quirks_irrelevant", "extract_agrees_partial",
+    "fixup_spec", "bsearch_good", "log2floor_spec", "switch_sorted_agrees", "good_unique",
+    "for_eq_while", "loop_forms_agree",
     "wrap_id", "wrap_range", "tdiv_range", "tmod_range", "idiv_eq", "imod_eq")]
 PROP.witness_theorems = ["NV.C03." + t for t in (
     "witness_num_opeq_real", "witness_addeq_num_str", "assignop_agrees_Full_false", "witness_buf_store_zero",
-    "witness_eq_zero_real", "witness_optimistic_rewrite", "witness_pp_if_32", "witness_rev_range_wrap")]
+    "witness_eq_zero_real", "witness_optimistic_rewrite", "witness_rev_range_wrap")]
